@@ -91,22 +91,16 @@ func (a *HMACAuth) Verify(r *http.Request, requestPath string, body []byte) erro
 		return ErrUnauthorized
 	}
 	t := time.Unix(ts, 0).UTC()
-	// One clock reading serves both the tolerance check and the nonce cache,
-	// so a nonce is remembered for exactly as long as its timestamp is accepted.
-	cur := now().UTC()
-	if a.Tolerance > 0 {
-		d := cur.Sub(t)
-		if d < -a.Tolerance || d > a.Tolerance {
-			return ErrUnauthorized
-		}
-	}
-
 	if a.nonce == nil {
 		a.nonce = newNonceCache(now)
 	} else {
 		a.nonce.setNow(now)
 	}
-	if !a.nonce.seenOnceAt(nonce, t.Add(a.Tolerance), cur) {
+	// The tolerance check and the nonce cache share one clock reading taken
+	// under the cache lock: a nonce is remembered for exactly as long as its
+	// timestamp is accepted, and a concurrent request with a later reading
+	// cannot expire it in between.
+	if !a.nonce.admit(nonce, t, a.Tolerance) {
 		return ErrUnauthorized
 	}
 
@@ -188,20 +182,29 @@ func (c *nonceCache) extend(by time.Duration) {
 	}
 }
 
-func (c *nonceCache) seenOnce(nonce string, expiresAt time.Time) bool {
-	return c.seenOnceAt(nonce, expiresAt, c.now().UTC())
+// admit reads the clock once under the lock, rejects a timestamp outside the
+// tolerance window and otherwise records the nonce until signedAt+tolerance.
+func (c *nonceCache) admit(nonce string, signedAt time.Time, tolerance time.Duration) bool {
+	c.mu.Lock()
+	defer c.mu.Unlock()
+
+	now := c.now().UTC()
+	if tolerance > 0 {
+		d := now.Sub(signedAt)
+		if d < -tolerance || d > tolerance {
+			return false
+		}
+	}
+	return c.seenOnceLocked(nonce, signedAt.Add(tolerance), now)
 }
 
-// seenOnceAt records nonce until expiresAt (inclusive: the tolerance check
+// seenOnceLocked records nonce until expiresAt (inclusive: the tolerance check
 // still accepts a timestamp at exactly ts+tolerance) and reports whether it
-// was new at instant now.
-func (c *nonceCache) seenOnceAt(nonce string, expiresAt time.Time, now time.Time) bool {
+// was new at instant now. The caller holds c.mu.
+func (c *nonceCache) seenOnceLocked(nonce string, expiresAt time.Time, now time.Time) bool {
 	if nonce == "" {
 		return false
 	}
-
-	c.mu.Lock()
-	defer c.mu.Unlock()
 
 	// Opportunistic cleanup.
 	for k, exp := range c.m {
